@@ -13,6 +13,7 @@ import (
 	"testing"
 
 	multiproof "github.com/crate-crypto/go-ipa"
+	"github.com/crate-crypto/go-ipa/banderwagon"
 	"github.com/crate-crypto/go-ipa/ipa"
 	"pgregory.net/rapid"
 
@@ -291,6 +292,97 @@ var c10RawPart = hx.NewPart("C10", "raw", func(t *rapid.T) c10Raw {
 	return c10Raw{Kind: c.Kind, Bytes: hx.HexBytes(c.bytesOf()), Reader: []string{"whole", "dataeof", "onebyte", "chunks"}[c.Chunk%4], Chunk: c.Chunk}
 }, evalC10Raw)
 
+// ---- proof OBJECTS in arbitrary representations (as the prover, a batch routine or a caller produces them): Write must emit
+// the canonical encodings, and Read(Write(p)) must equal p.
+
+type c10Obj struct {
+	Kind   string `json:"kind"`
+	Seed   uint64 `json:"seed"`
+	Reps   []int  `json:"reps"`             // per point: bit0 rescale, bit1 sign-flip
+	Shared bool   `json:"shared,omitempty"` // L and R are the two halves of ONE backing array
+}
+
+func genC10Obj(t *rapid.T) c10Obj {
+	return c10Obj{Kind: rapid.SampledFrom([]string{"multi", "ipa"}).Draw(t, "kind"), Seed: rapid.Uint64().Draw(t, "seed"),
+		Reps: rapid.SliceOfN(rapid.IntRange(0, 3), 17, 17).Draw(t, "reps"), Shared: rapid.Bool().Draw(t, "shared")}
+}
+
+func evalC10Obj(c c10Obj, rec *hx.Rec) error {
+	rec.Eval(1)
+	rec.Sample(c)
+	pts := make([]hx.RPt, 17)
+	var want []byte
+	for i := range pts {
+		p := refPointFromSeed(c.Seed + uint64(i))
+		if (c.Seed>>8)%5 == 0 && i%4 == 1 {
+			p = hx.G.Identity()
+		}
+		pts[i] = hx.Rep(p, c.Reps[i%len(c.Reps)], c.Seed+uint64(31*i))
+		if i > 0 || c.Kind == "multi" {
+			enc := hx.G.Compress(p)
+			want = append(want, enc[:]...)
+		}
+	}
+	a := hx.ExpandFr(c.Seed, "c10obj", 0)
+	want = append(want, ref.LE32(a)...)
+	lr := hx.ToImplSlice(pts[1:])
+	var L, R []banderwagon.Element
+	if c.Shared {
+		L, R = lr[:8:8], lr[8:16:16]
+	} else {
+		L, R = append([]banderwagon.Element(nil), lr[:8]...), append([]banderwagon.Element(nil), lr[8:16]...)
+	}
+	ip := ipa.IPAProof{L: L, R: R, A_scalar: hx.FrFromBig(a)}
+	mp := multiproof.MultiProof{D: hx.ToImpl(pts[0]), IPA: ip}
+	var out bytes.Buffer
+	var werr error
+	if perr := hx.Try(func() {
+		if c.Kind == "multi" {
+			werr = mp.Write(&out)
+		} else {
+			werr = ip.Write(&out)
+		}
+	}); perr != nil || werr != nil {
+		return fmt.Errorf("Write of a proof object: %v %v", perr, werr)
+	}
+	if !bytes.Equal(out.Bytes(), want) {
+		return fmt.Errorf("%s.Write of a proof whose points are in non-normalised representations differs from the canonical encodings (first difference at byte %d)", c.Kind, firstDiff(out.Bytes(), want))
+	}
+	var rerr error
+	var eq1, eq2 bool
+	var back []banderwagon.Element
+	if perr := hx.Try(func() {
+		if c.Kind == "multi" {
+			var again multiproof.MultiProof
+			rerr = again.Read(bytes.NewReader(out.Bytes()))
+			eq1, eq2 = again.Equal(mp), mp.Equal(again)
+			back = append(append([]banderwagon.Element{again.D}, again.IPA.L...), again.IPA.R...)
+		} else {
+			var again ipa.IPAProof
+			rerr = again.Read(bytes.NewReader(out.Bytes()))
+			eq1, eq2 = again.Equal(ip), ip.Equal(again)
+			back = append(append([]banderwagon.Element{hx.ToImpl(pts[0])}, again.L...), again.R...)
+		}
+	}); perr != nil {
+		return fmt.Errorf("Read(Write(p)): %w", perr)
+	}
+	if rerr != nil || !eq1 || !eq2 {
+		return fmt.Errorf("Read(Write(p)) != p for a %s proof object in non-normalised representation (err=%v, Equal=%v/%v)", c.Kind, rerr, eq1, eq2)
+	}
+	if len(back) != 17 {
+		return fmt.Errorf("Read(Write(p)) has %d points", len(back)-1)
+	}
+	for i := range back {
+		if g := hx.FromImpl(&back[i]); !hx.G.IsValid(g) || !hx.G.Equal(g, pts[i]) {
+			return fmt.Errorf("Read(Write(p)): point %d is not the group element that was written", i)
+		}
+	}
+	rec.NT("obj", fmt.Sprint(c))
+	return nil
+}
+
+var c10ObjPart = hx.NewPart("C10", "object", genC10Obj, evalC10Obj)
+
 func evalC10(c c10Case, rec *hx.Rec) error {
 	rec.Sample(c)
 	if c.Seed%4 == 1 {
@@ -552,5 +644,6 @@ func TestC10(t *testing.T) {
 	}
 	c10Part.Run(s, hx.PerShard(hx.Pick(64000, 800000)))
 	c10RawPart.Run(s, hx.PerShard(hx.Pick(6400, 80000)))
+	c10ObjPart.Run(s, hx.PerShard(hx.Pick(6400, 80000)))
 	c10Part.RunConcurrent(s, 8, hx.Pick(500, 8000))
 }
